@@ -406,6 +406,16 @@ func (g *Gen) pick(t reflect.Type, depth int, key bool) reflect.Value {
 		s := reflect.New(t).Elem()
 		for i := 0; i < t.NumField(); i++ {
 			f := t.Field(i)
+			if f.PkgPath != "" && f.Anonymous && f.Type.Kind() == reflect.Struct {
+				// an embedded struct of an unexported type: its exported fields are promoted
+				sub := g.pick(f.Type, depth, false)
+				for j := 0; j < f.Type.NumField(); j++ {
+					if f.Type.Field(j).PkgPath == "" {
+						s.Field(i).Field(j).Set(sub.Field(j))
+					}
+				}
+				continue
+			}
 			if f.PkgPath != "" {
 				continue
 			}
